@@ -64,8 +64,8 @@ def run(ctx):
     pairs = [(("DirectedEdge", "ab"), ("DirectedEdge", "ab")), (("DirectedEdge", "ab"), ("DirectedEdge", "ba")), (("DirectedEdge", "ab"), ("UnDirectedEdge", "ab")),
              (("UnDirectedEdge", "ba"), ("DirectedEdge", "aa")), (("SymTwo", "ab"), ("DirectedEdge", "ac")), (("DirectedEdge", "aa"), ("DirectedEdge", "bb"))]
     for links in singles + pairs:
-        for stale, cbs in itertools.product((None, 0, 1, 7, "equal-to-member"), (False, True)):
-            if stale is not None and not any("c" in e for _, e in links):
+        for stale, cbs in itertools.product((None, 0, 1, 7, "equal-to-member", "falsy-vertices"), (False, True)):
+            if stale not in (None, "falsy-vertices") and not any("c" in e for _, e in links):
                 continue
             try:
                 why, sample = evaluate(h, rec, fn, links, stale, cbs)
@@ -97,6 +97,9 @@ def evaluate(h, rec, fn, links, stale, cbs):
         V = {n: h.I.call(h.sym["EqVert"], [{"a": 1, "b": 2, "c": 2}[n]], {}) for n in "abc"}
         for n, v in V.items():
             v.name = n
+        stale = None
+    elif stale == "falsy-vertices":
+        V = {n: h.new("SymFalsyVert", n) for n in "abc"}   # vertices whose truth value is False (empty container vertices)
         stale = None
     else:
         V = {n: h.new("Vertex", n) for n in "abc"}
